@@ -24,3 +24,171 @@ class transpose_tuple_contract:
 
     def canary(sh, a, ret):
         check("canary: transposition is the identity", list(ret) == list(a[1]) and sh["s0"] > 1 and sh["s1"] > 1)
+
+
+# =====================================================================================
+# RealizeMemrefCasts: copy-in before the first reader, copy-back after the last writer
+# =====================================================================================
+from xdsl.dialects import func, linalg, memref  # noqa: E402
+from xdsl.dialects.builtin import MemRefType, NoneAttr, StringAttr, i32  # noqa: E402
+from xdsl.ir import Block, Operation, Region, SSAValue, Use  # noqa: E402
+from xdsl.pattern_rewriter import PatternRewriter  # noqa: E402
+
+from snaxc.dialects.snax import LayoutCast  # noqa: E402
+from snaxc.transforms.realize_memref_casts import RealizeMemrefCasts  # noqa: E402
+
+KINDS = ("R", "W", "RW", "X", "N", "Ret")
+
+
+class OtherOp(Operation):
+    """an op of an unknown dialect that uses the value (the pass must assume it reads AND writes)"""
+
+    def __init__(self, values):
+        self._init_op(values, [], [])
+
+
+def mk_user(kind, v, other):
+    """R: generic ins(v) outs(other); W: ins(other) outs(v); RW: ins(v) outs(v); X: unknown op using v;
+    N: an op that does not use v; Ret: func.return v"""
+    if kind == "R":
+        o = linalg.GenericOp([v], [other])
+    elif kind == "W":
+        o = linalg.GenericOp([other], [v])
+    elif kind == "RW":
+        o = linalg.GenericOp([v], [v])
+    elif kind == "X":
+        o = OtherOp([v])
+    elif kind == "Ret":
+        o = func.ReturnOp(v)
+    else:
+        o = OtherOp([other])
+    if kind != "N":
+        v.uses.append(Use(o, 0))
+    return o
+
+
+def reads(kind):
+    return kind in ("R", "RW", "X", "Ret")
+
+
+def writes(kind):
+    return kind in ("W", "RW", "X")
+
+
+def rmc_shapes():
+    out = []
+    for a in KINDS:
+        for b in KINDS:
+            for c in KINDS:
+                seq = [a, b, c]
+                # func.return is a terminator: last position only
+                if "Ret" in seq[:2]:
+                    continue
+                out.append(dict(seq=seq))
+    return out
+
+
+def simulate(seq_ops, kinds_of, stand_in, original):
+    """token-level data flow of the REWRITTEN block: returns (values each user read, final value of the original)"""
+    mem = {"O": ("init",), "S": ("undef",)}
+    seen = []
+    for o in seq_ops:
+        if isinstance(o, memref.CopyOp):
+            src = "S" if o.source is stand_in else ("O" if o.source is original else None)
+            dst = "S" if o.destination is stand_in else ("O" if o.destination is original else None)
+            if src is not None and dst is not None:
+                mem[dst] = mem[src]
+            continue
+        k = None
+        for (u, kk, i) in kinds_of:
+            if u is o:
+                k = (kk, i)
+        if k is None:
+            continue
+        kind, i = k
+        if reads(kind):
+            seen.append((i, mem["S"]))
+        if writes(kind):
+            mem["S"] = ("w", i)
+    return seen, mem["O"]
+
+
+def reference(kinds):
+    """the ORIGINAL block: every user touches the one buffer X"""
+    x = ("init",)
+    seen = []
+    i = 0
+    for kind in kinds:
+        if reads(kind):
+            seen.append((i, x))
+        if writes(kind):
+            x = ("w", i)
+        i += 1
+    return seen, x
+
+
+@contract
+class RealizeMemrefCasts_placement_contract:
+    """token-level data flow: with the inserted copies every user of the stand-in buffer reads what it read from the
+    original buffer before the rewrite, and after the block the original buffer holds what it held before the rewrite"""
+    target = "snaxc.transforms.realize_memref_casts.RealizeMemrefCasts.match_and_rewrite"
+    shapes = rmc_shapes()
+    native = False
+    total = True
+    permissive = True
+    compare_ret = False
+
+    def args(sh, sym):
+        src_t = MemRefType(i32, [8], NoneAttr(), StringAttr("L3"))
+        dst_t = MemRefType(i32, [8], NoneAttr(), StringAttr("L1"))
+        src = SSAValue(None, src_t)
+        other = SSAValue(None, dst_t)
+        cast = LayoutCast(src, dst_t)
+        users = [mk_user(k, cast.results[0], other) for k in sh["seq"]]
+        blk = Block([cast] + users)
+        Region([blk])
+        return [RealizeMemrefCasts(), cast, src, users, blk]
+
+    def run(sh, a):
+        rw = PatternRewriter(a[1])
+        a[0].match_and_rewrite(a[1], rw)
+        return rw.log
+
+    def ensures(sh, a, ret):
+        pat, cast, src, users, blk = a
+        kinds = sh["seq"]
+        if all(k == "N" for k in kinds):
+            check("an unused cast is left alone", len(ret) == 0)
+            return
+        reps = [e for e in ret if e[0] == "replace_op" and e[1] is cast]
+        check("the cast is replaced by the allocation of its stand-in buffer", len(reps) == 1 and isinstance(reps[0][2][-1], memref.AllocOp))
+        alloc = reps[0][2][-1]
+        # after the replacement every user of the cast value sees the alloc result: identify the two
+        stand_in = cast.results[0]
+        before = {}
+        after = {}
+        for e in ret:
+            if e[0] == "insert_op":
+                ops = e[1] if isinstance(e[1], (list, tuple)) else [e[1]]
+                key = id(e[2].anchor)
+                if e[2].kind == "before":
+                    before[key] = before.get(key, []) + list(ops)
+                else:
+                    check("copies are placed before or after an op", e[2].kind == "after")
+                    # a later insert_after lands closer to the anchor
+                    after[key] = list(ops) + after.get(key, [])
+        seq = []
+        for u in users:
+            seq = seq + before.get(id(u), []) + [u] + after.get(id(u), [])
+        k = 0
+        kinds_of = []
+        for u in users:
+            kinds_of.append((u, kinds[k], k))
+            k += 1
+        got_seen, got_final = simulate(seq, kinds_of, stand_in, src)
+        ref_seen, ref_final = reference(kinds)
+        check("every reader of the stand-in buffer reads the data it read from the original buffer", got_seen == ref_seen)
+        check("after the block the original buffer holds the data of the last writer (or is untouched)", got_final == ref_final)
+
+    def canary(sh, a, ret):
+        check("canary: no copy is ever needed", all(e[0] != "insert_op" for e in ret) and any(k != "N" for k in sh["seq"]))
